@@ -383,13 +383,16 @@ func equalRGSW(a, b *rgsw.Ciphertext) bool {
 func init() {
 	eng.Register(&eng.Monitor{
 		ID: "C20", Level: "exploration",
-		Rule:  "three case families. ep: rlwe parameter sets (logN 4..10, 1..10 Q primes of mixed sizes incl. primes below 2^29 that trigger the 32-bit fast path and chains with >= 8 RNS digits, 0..3 P primes); inside a case every sampled (RGSW levelQ, levelP, BaseTwoDecomposition w) x small plaintext g (0, +-1, +-X^k, sparse, dense) x plaintext flag combination is encrypted, and the external product is run on hostile inputs (fresh encryption, all coefficients q-1, all digits 2^w-1, uniform, one-hot) in place, out of place into a garbage-filled output, and out of place after an unrelated product; distinct key = (path, chain sizes, levelQ, levelP, w, g kind, input pattern, mode); non-trivial = the worst-case noise bound is below Q_level/8 or the exact-sum model was evaluated (levelP <= 0 and the decomposition is not the vacuous single-prime w=0 one). alg: AddLazy(ct), AddLazy(pt), Reduce, MulByXPowAlphaMinusOneLazy, ...ThenAddLazy and a chained combination, every gadget row of both halves decrypted; distinct key = (op, chain, levels, w, alpha class); all non-trivial. br: (LWE, BR) parameter pairs with N_LWE <= N_BR, evaluation-key parameters (levelP, w), LWE secret weight, test functions (sign, identity, random table, square) on an interval [a,b], slot subsets, inputs on the discretisation grid incl. end points and sign changes, a crafted ciphertext that makes the algorithm request every Galois key; distinct key = (pair, key params, weight, function, slot, grid point); non-trivial = worst-case blind-rotation noise bound below Q_BR/16 (the exact rotation amount is then decided) .",
+		Rule:  "three case families. ep: rlwe parameter sets (logN 4..10, 1..10 Q primes of mixed sizes incl. primes below 2^29 that trigger the 32-bit fast path and chains with >= 8 RNS digits, 0..3 P primes); inside a case every sampled (RGSW levelQ, levelP, BaseTwoDecomposition w) x small plaintext g (0, +-1, +-X^k, sparse, dense) x plaintext flag combination is encrypted, and the external product is run on hostile inputs (fresh encryption, all coefficients q-1, all digits 2^w-1, uniform, one-hot) in place, out of place into a garbage-filled output, and out of place after an unrelated product; distinct key = (path, chain sizes, levelQ, levelP, w, g kind, input pattern, mode); non-trivial = the worst-case noise bound is below Q_level/8 or the exact-sum model was evaluated (levelP <= 0 and the decomposition is not the vacuous single-prime w=0 one). alg: AddLazy(ct), AddLazy(pt), Reduce, MulByXPowAlphaMinusOneLazy, ...ThenAddLazy and a chained combination, every gadget row of both halves decrypted; distinct key = (op, chain, levels, w, alpha class); all non-trivial. br: (LWE, BR) parameter pairs with N_LWE <= N_BR, evaluation-key parameters (levelP, w), LWE secret weight, test functions (sign, identity, random table, square) on an interval [a,b], slot subsets, inputs on the discretisation grid incl. end points and sign changes, a crafted ciphertext that makes the algorithm request every Galois key; distinct key = (pair, key params, weight, function, slot, grid point); non-trivial = worst-case blind-rotation noise bound below Q_BR/16 (the exact rotation amount is then decided). Audit extensions (own random stream): epx = per parameter set, (levelQ, levelP, w) trials: NewCiphertext shape, encryption through a ShallowCopy encryptor and into a receiver that holds another encryption, EncryptZero on a used receiver, plaintexts with coefficients up to 2^30, NoiseRGSWCiphertext against the exact error vectors (right and wrong plaintext), ExternalProduct through ShallowCopy/WithKey evaluators bit-for-bit against the constructor-made one, Encrypt/EncryptZero delegated to *rlwe.Ciphertext; distinct key = (check, chain, levels, w, g kind, input pattern), non-trivial as in ep. algx = Reduce out of place into a used receiver, AddLazy with operand == receiver, MulByXPowAlphaMinusOneLazy into a used receiver, a chain of three lazy operations with a single out-of-place reduction, NewPlaintext from scalars up to 2^27 / the documented *ring.Poly / unsupported types; all non-trivial. tpx = InitTestPolynomial on rings below the top level, 7 scales, 8 intervals, tables with |f| up to 3; distinct key = (ring, level, f, interval, scale). brx = small (LWE, BR) pairs: GenEvaluationKeyNew with absent / partial EvaluationKeyParameters (incl. LevelP=-1 under P and LevelQ below the top), Evaluate with the MemBlindRotationEvaluationKeySet itself against an equivalent key source, three refusal paths and the result after them, the empty slot subset, BlindRotateCore called directly with five mask-vector classes on a noisy accumulator; distinct key = (pair, key shape, function, slot or mask class, rotation), non-trivial as in br.",
 		Cases: cases,
 		Assumptions: []string{
 			"worst-case external-product bound: 2 halves x sum over gadget rows of N*|digit|_inf*floor(B_e+1/2), divided by P, plus 1.5*(1+|s|_1) for the ModDown rounding; |digit| < 2^w, <= q_i (uncentred single-prime digits) or <= digit-group modulus (RNS digits)",
 			"blind-rotation bound: N_LWE external products + observed number of automorphisms (C04 key-switch bound each); monomial products and automorphisms preserve the infinity norm",
 			"modulus switch model as documented in modSwitchRLWETo2NLvl/getDiscreteLogSets: round(x*2N/Q) mod 2N, even non-zero mask values are xored with 1, a mask value 0 is processed as 1; worst-case drift window 1/2 + 3/2*|s_LWE|_1",
 			"one stock-parameter case (27-bit modulus, N=1024) has a worst-case bound above Q; it is judged functionally (|phase - X^k F|inf < Q/8, more than 30 standard deviations) and counted as trivial",
+			"BlindRotateCore on an accumulator of phase phi returns sigma_h(phi)*X^<a,s>, h = (2N-5)^-1 mod 2N (linearity of the documented Evaluate: acc = T(X^-g) -> T*X^<a,s>); mask values must be odd or 0 (the code panics otherwise, as its message documents)",
+			"rgsw.NoiseRGSWCiphertext = max(0, max_j log2 of the sample standard deviation (N-1) of sum_i error(i,j)) over the power-of-two digits j that every RNS digit has, as rlwe.NoiseGadgetCiphertext computes it",
+			"blind-rotation keys below the top level (EvaluationKeyParameters.LevelQ): only the rows of Q_LevelQ of the result are judged; the level the result claims is counted (brx_results_claiming_a_level_above_the_key_level), not judged (undocumented)",
 			"NTT / Montgomery kernels used by the oracle (phase computation, exact gadget sum) are the ones judged by C01; CRT and comparisons are math/big",
 		},
 	})
